@@ -162,6 +162,24 @@ PROPS = {
              "Into (entry_ref) and extend-iterator panics are covered by the entry profile once C14's tie is present. Panics "
              "inside Drop while already unwinding abort the process by Rust's rules and are excluded.",
     ),
+    "C07": dict(
+        module="Hb.Props.C07",
+        ties=[("scen", "set-pairs", 250, 8000), ("scen", "set", 200, 6000), ("scen", "panic-set-pairs", 3, 60)],
+        backends=["sse2", "portable"],
+        design="§7 C07",
+        text="Lean theorems over ANY two set tables satisfying the hash-dependent invariant (any histories, layouts, "
+             "capacities, tombstones), every deterministic hasher, both scanners: union/intersection/difference/"
+             "symmetric_difference yield explicit duplicate-free lists equal to the mathematical result (both |A|<=|B| and "
+             "|A|>|B| strategies), all four size hints are sound, is_subset/is_superset/is_disjoint/== give the mathematical "
+             "answer (== symmetric), &= and -= (both strategies) unconditional, |=, ^= and the non-assigning operators exact "
+             "whenever they return; insert keeps / replace swaps / get_or_insert keeps the stored object, get_or_insert_with "
+             "refuses a non-equivalent value with the set unchanged. Tie: all binary ops, predicates, operator and assigning "
+             "forms in both directions on pairs of sets built by different histories (set-pairs), full dumps compared with "
+             "the model, incl. panic sweeps inside the binary ops; direct oracle: BTreeSet mathematics on the real sets.",
+        note="Trusted: Lean kernel, axioms propext/Classical.choice/Quot.sound; harness, hooks, protocol. Inserting operations are "
+             "stated for the case where the call returns (reserve may abort on allocator refusal); destructor panics are "
+             "explicit alternative outcomes.",
+    ),
     "C08": dict(
         module="Hb.Props.C08",
         ties=[("scen", "reserve", 300, 10000), ("scen", "mixed", 200, 6000), ("scen", "saturate", 60, 2000), ("t1", {})],
@@ -208,9 +226,31 @@ PROPS = {
         note="Trusted: Lean kernel, axioms propext/Classical.choice/Quot.sound; harness, hooks, protocol. Termination on the real "
              "code is observed only as completion of the runs (no timing-based verdicts).",
     ),
+    "C19": dict(
+        module="Hb.Props.C19",
+        ties=[("scen", "par", 200, 3000)],
+        backends=["sse2", "portable"],
+        design="§7 C19",
+        text="Lean theorems about the split logic of the rayon producers, for EVERY binary decision tree over the bucket "
+             "range (every choice of split-or-consume at every node), every table satisfying the structural invariant (any "
+             "size, any occupancy, tombstones, both scanners) and, for par_drain, every per-leaf early-stop count: the leaves "
+             "of RawIterRange::split partition the full buckets (each stored element in exactly one leaf, once, leaves in "
+             "bucket order); consumed ++ dropped-by-ParDrainProducer::drop over all leaves is exactly the stored elements, the "
+             "slot moves never touch a dead slot in any order, and the table left by the clear_no_drop guard is empty, keeps "
+             "its allocation and satisfies the invariant. Ties: RawIterRange::split driven along generated trees (depth <= 6, "
+             "spines, full trees) through a hook and compared leaf-by-leaf with the model; all rayon entry points of maps, sets "
+             "and tables run in real thread pools of 1..64 threads with early-stopping consumers (try_for_each / find_any / "
+             "undriven drop) and judged by direct oracles: delivered multiset = stored, id ledger consumed+dropped = stored "
+             "exactly once (process-global drop log), collection empty/usable/allocation kept, par_extend / from_par_iter / "
+             "par_eq / set algebra and predicates = sequential counterparts = reference sets.",
+        note="Partial by design: rayon's scheduler, work stealing and inter-thread memory ordering are outside the model "
+             "(trusted: the bridge drives the producer along some tree, runs every leaf once, and its reducers combine results in "
+             "leaf order). Trusted further: Lean kernel, axioms propext/Classical.choice/Quot.sound; harness, split hook, protocol.",
+    ),
     "C09": dict(
         module="Hb.Props.C09",
-        ties=[("scen", "iter", 300, 10000), ("scen", "mixed", 200, 6000), ("scen", "saturate", 40, 2000)],
+        ties=[("scen", "iter", 300, 10000), ("scen", "mixed", 200, 6000), ("scen", "saturate", 40, 2000),
+              ("scen", "table", 150, 5000), ("scen", "set", 100, 3000)],
         backends=["sse2", "portable"],
         design="§7 C09",
         text="Lean theorems: in every table state satisfying the structural invariant (proved preserved elsewhere; "
